@@ -1706,12 +1706,14 @@ class NPFacade:
     def __getattr__(self, name):
         ov = self.__dict__["_ov"]
         f = ov[name] if name in ov else getattr(np, name)
-        if callable(f) and not isinstance(f, (type, np.ufunc)) and name not in ("dtype",):
-            return _dtype_kw_wrapper(f)
+        if name in _DTYPE_KW_FUNCS and callable(f):
+            return _dtype_kw_wrapper(f)          # array constructors only: every other function keeps its identity (`fcn is np.nanmean` must stay true)
         return f
 
 
 _WRAPPED = {}
+_DTYPE_KW_FUNCS = {"arange", "zeros", "ones", "empty", "full", "array", "asarray", "eye", "identity", "linspace", "zeros_like", "ones_like", "empty_like",
+                   "full_like", "fromiter", "frombuffer", "ascontiguousarray", "asanyarray"}
 
 
 def _dtype_kw_wrapper(f):
